@@ -830,6 +830,12 @@ package iavl
 //@   requires node != nil && t != nil && t.ndb != nil && path != nil && valid(node)
 //@   ensures [found] err == nil ==> res != nil && res.subtreeHeight == 0 && ord(res.key) == ord(key)
 //@   ensures [frame] nframe(old(heap(N)), heap(N), old(na))
+//@   let n0 = len(*path)
+//@   ensures [prefix-kept] err == nil ==> len(*path) >= old(n0) && forall(i, imp(0 <= i && i < old(n0), (*path)[i] == old((*path)[i])))
+//@   ensures [leaf-adds-nothing] err == nil && old(node.subtreeHeight) == 0 ==> len(*path) == old(n0)
+//@   ensures [step-header] err == nil && old(node.subtreeHeight) != 0 ==> len(*path) > old(n0) && (*path)[old(n0)].Height == old(node.subtreeHeight) && (*path)[old(n0)].Size == old(node.size) && (*path)[old(n0)].Version == ite(old(node.nodeKey) != nil, old(node.nodeKey.version), version)
+//@   ensures [step-left] err == nil && old(node.subtreeHeight) != 0 && old(ord(key)) < old(ord(node.key)) ==> (*path)[old(n0)].Left == nil && (old(node.rightNode) != nil ==> (*path)[old(n0)].Right == old(node.rightNode.hash))
+//@   ensures [step-right] err == nil && old(node.subtreeHeight) != 0 && old(ord(key)) >= old(ord(node.key)) ==> (*path)[old(n0)].Right == nil && (old(node.leftNode) != nil ==> (*path)[old(n0)].Left == old(node.leftNode.hash))
 //@   modifies *path, ProofInnerNode.*[*], nodeDB.mtx[*], Statistics.*[*]
 //@   decreases hgt(view(node))
 
